@@ -76,6 +76,12 @@ Theorem C15_redirect_sound :
 Proof. exact redirects_sound. Qed.
 Print Assumptions C15_redirect_sound.
 
+(* at most one redirect site per host, for EVERY site list (the loop sees the sites it appended) *)
+Theorem C15_redirect_one_per_host :
+  forall all, exists extra, make_plaintext_redirects all = all ++ extra /\ NoDup (map host extra).
+Proof. exact redirects_unique. Qed.
+Print Assumptions C15_redirect_one_per_host.
+
 (* completeness: a TLS-enabled site without no_redirect and without another site of its host on :80
    gets a redirect site for its host, PROVIDED it is on :443 or no other site of its host is *)
 Theorem C15_redirect_complete_partial :
